@@ -138,3 +138,8 @@ Proof.
   intros. unfold cmd_after. rewrite auth_window_closed. reflexivity.
 Qed.
 
+
+(* T1: the redaction flag is owned by Auth - no other function of package smtp assigns authIsActive (so a Close, Quit,
+   Reset, Noop ... of another goroutine between two SASL steps cannot open the window) *)
+Lemma gen_flag_owned_by_auth : Gen.smtp_authIsActive_writers = [bs "Client.Auth"].
+Proof. reflexivity. Qed.
